@@ -1340,9 +1340,10 @@ func call(n *node) {
 		value = genFunctionWrapper(c0)
 		n.exec = func(f *frame) bltn {
 			val := make([]reflect.Value, len(values)+1)
-			val[0] = value(f)
+			// The function value and the operands of a deferred call are fixed at
+			// the defer statement.
+			val[0] = copyValue(value(f))
 			for i, v := range values {
-				// The operands of a deferred call are fixed at the defer statement.
 				val[i+1] = copyValue(v(f))
 			}
 			f.deferred = append([][]reflect.Value{val}, f.deferred...)
@@ -1362,6 +1363,12 @@ func call(n *node) {
 
 		// Call bin func if defined
 		if bf.IsValid() {
+			if goroutine {
+				// The function value of a go statement is evaluated by the go
+				// statement, like its arguments: do not let the new goroutine read
+				// it later from the caller's frame.
+				bf = copyValue(bf)
+			}
 			var callf func([]reflect.Value) []reflect.Value
 
 			// Lambda definitions are necessary here. Due to reflect internals,
@@ -1628,9 +1635,10 @@ func callBin(n *node) {
 		// Store function call in frame for deferred execution.
 		n.exec = func(f *frame) bltn {
 			val := make([]reflect.Value, l+1)
-			val[0] = value(f)
+			// The function value and the operands of a deferred call are fixed at
+			// the defer statement.
+			val[0] = copyValue(value(f))
 			for i, v := range values {
-				// The operands of a deferred call are fixed at the defer statement.
 				val[i+1] = copyValue(getBinValue(getMapType, v, f))
 			}
 			f.deferred = append([][]reflect.Value{val}, f.deferred...)
@@ -1639,11 +1647,13 @@ func callBin(n *node) {
 	case n.anc.kind == goStmt:
 		// Execute function in a goroutine, discard results.
 		n.exec = func(f *frame) bltn {
+			// The function value and the arguments of a go statement are evaluated
+			// by the go statement: the new goroutine gets copies.
 			in := make([]reflect.Value, l)
 			for i, v := range values {
-				in[i] = getBinValue(getMapType, v, f)
+				in[i] = copyValue(getBinValue(getMapType, v, f))
 			}
-			go callFn(value(f), in)
+			go callFn(copyValue(value(f)), in)
 			return tnext
 		}
 	case fnext != nil:
